@@ -374,7 +374,7 @@ func c18IntGroup(c *Ctx, r *Rng, p, q *big.Int, cases int) {
 				continue
 			}
 			pool = append(pool, t)
-			d.bindingCase(c, r, t, c.Thorough() || it == 0)
+			d.bindingCase(c, r, t, (c.Thorough() || N.BitLen() < 400) && it == 0)
 			if di == 0 && (it < 2 || c.Thorough()) {
 				for _, alt := range alts {
 					d.keyCase(c, alt, t, false)
